@@ -89,6 +89,30 @@ def client():
     return _client
 
 
+def independent_name(raw, fmt):
+    """Name column of a listing line by plain column splitting (independent of aioftp's parsers).
+    Returns None when the line has no name column at all (such a line carries no entry: not judged)."""
+    s = raw.decode("utf-8", "replace").rstrip()
+    if fmt == "mlsx":
+        facts, sep, name = s.partition(" ")
+        return name if sep and name.strip() else None
+    f = s.split(None, 8)
+    if len(f) == 9 and len(f[0]) >= 10 and f[0][0] in "-dlbcps":
+        name = f[8]
+        if f[0][0] == "l" and " -> " in name:
+            name = name.rsplit(" -> ", 1)[0]
+        return name.strip() or None
+    w = s.split(None, 4)
+    if len(w) == 5 and w[2].upper() in ("AM", "PM"):
+        return w[4].strip() or None
+    return None
+
+
+def names_dot_entry(raw, fmt="list"):
+    n = independent_name(raw, fmt)
+    return n is None or n in (".", "..")
+
+
 def parser_contract(data):
     """Shared by Hypothesis and atheris.  Raises Violation."""
     cl = client()
@@ -101,6 +125,11 @@ def parser_contract(data):
             raise Violation(f"C19/parsers/{name}/raises_{type(e).__name__}_instead_of_ValueError", dict(input=data, error=repr(e)[:200]))
         if not (isinstance(r, tuple) and len(r) == 2 and isinstance(r[0], pathlib.PurePosixPath) and isinstance(r[1], dict)):
             raise Violation(f"C19/parsers/{name}/ill_typed_result", dict(input=data, result=repr(r)[:200]))
+        # Client.list() silently skips entries whose parsed name is '.' or '..': a line that does not name a dot
+        # entry must therefore never be parsed as one (it would be dropped instead of reported)
+        one_line = b"\n" not in data.rstrip(b"\r\n") and b"\r" not in data.rstrip(b"\r\n")  # else: not a listing *line*
+        if one_line and str(r[0]) in (".", "..") and not names_dot_entry(data, "mlsx" if name == "parse_mlsx_line" else "list"):
+            raise Violation(f"C19/parsers/{name}/non_dot_line_parsed_as_dot_entry", dict(input=data, result=repr(r)[:200]))
     for name in ("parse_list_line_unix", "parse_list_line_windows"):
         try:
             r = getattr(cl, name)(data)
@@ -450,8 +479,10 @@ def check_server(ctx, case):
                     except ValueError:
                         expected = None
                         break
-                    if str(p) not in (".", ".."):
+                    if not names_dot_entry(ln):
                         expected += 1
+                    elif str(p) not in (".", ".."):
+                        expected += 1  # the parser found a name where plain column splitting saw none: it is reported
                 if expected is None:
                     raise Violation(f"C19/server/{call}/unparsable_line_dropped_silently", detail)
                 if len(val) != expected and len(lines) > 0 and result["stats"].get("LIST", 0) == 1:
